@@ -5,6 +5,7 @@ collecting the candidate values of a field (by name, by position, by map key).
 -/
 namespace SaModel.Build
 open SaModel SaModel.Spec
+open SaModel.Lemmas.C03 (ViewSmall ViewSmallL)
 
 theorem getD_set {α} (l : List α) (i j : Nat) (a d : α) (hi : i < l.length) :
     (l.set i a).getD j d = if i = j then a else l.getD j d := by
@@ -138,7 +139,8 @@ theorem record_rows {p len v fs cached next seen} {pf : SS → R SS} {b' : B}
       (∀ j, (s2.seen[j]? = some true → adds3.getD j [] = adds2.getD j []) ∧
         (s2.seen[j]? = some false → adds3.getD j [] = [.null] ∧
           ∃ c m c', s2.fields.get? j = some (c, m) ∧ m.nullable = true ∧ pushNone c = .ok c')) ∧
-      dec b' = dec (.struct p len v fs cached next seen) ++ [rowAt (fs.names.zip adds3) 0] := by
+      dec b' = dec (.struct p len v fs cached next seen) ++ [rowAt (fs.names.zip adds3) 0] ∧
+      (ViewSmall b' → ViewSmallL s2.fields) := by
   obtain ⟨s1, h1, h⟩ := (bind_ok _ _ _).1 h
   obtain ⟨s2, h2, h⟩ := (bind_ok _ _ _).1 h
   obtain ⟨s3, h3, h⟩ := (bind_ok _ _ _).1 h
@@ -167,9 +169,11 @@ theorem record_rows {p len v fs cached next seen} {pf : SS → R SS} {b' : B}
     (by rw [hnames, ← ExtL.names _ _ _ hm2.ext]; exact hm2.cache)
     (by rw [(ExtL.length _ _ _ hext3).1, ← Flags.length _ _ hm2.flags, (ExtL.length _ _ _ hm2.ext).2])
   simp only [List.length_singleton, List.range_one, List.map_cons, List.map_nil, maskNull_const_one, rowOf_true] at this
-  refine ⟨_, s2, adds2, adds3, rfl, rfl, h2, hmid, hm2, (ExtL.length _ _ _ hext3).2, hrel, ?_⟩
-  simp only [SS.toB, hp, hl, hvv]
-  exact this.2
+  refine ⟨_, s2, adds2, adds3, rfl, rfl, h2, hmid, hm2, (ExtL.length _ _ _ hext3).2, hrel, ?_, ?_⟩
+  · simp only [SS.toB, hp, hl, hvv]
+    exact this.2
+  · simp only [SS.toB, ViewSmall]
+    exact endFields_small _ _ _ h3'
 
 /-! ### schema ↔ children -/
 
@@ -241,15 +245,16 @@ theorem struct_interp {p len v fs cached next seen} {pf : SS → R SS} {b' : B} 
     (hwf : WFB (.struct p len v fs cached next seen)) (hsafe : Safe (.struct p len v fs cached next seen))
     (hshape : ShapeL fs sfs) (hpf : FieldsOK pf) (hskel : ∀ s1 s2, pf s1 = .ok s2 → SSkel s2 s1)
     (hcol : ∀ s1 s2 adds2, s1.next = 0 → s1.fields = fs → Mid fs s1 (List.replicate fs.length []) → Mid fs s2 adds2 →
-      pf s1 = .ok s2 → ∀ j f, sfs.toList[j]? = some f → ∃ found, collect f = .ok found ∧ adds2.getD j [] = found)
+      pf s1 = .ok s2 → ViewSmallL s2.fields →
+      ∀ j f, sfs.toList[j]? = some f → ∃ found, collect f = .ok found ∧ adds2.getD j [] = found)
     (h : (do
       let s ← SS.start ⟨p, len, v, fs, cached, next, seen⟩
       let s ← pf s
       let s ← s.finishRow
       pure s.toB : R B) = .ok b')
-    (hd : dec b' = dec (.struct p len v fs cached next seen) ++ [lv]) :
+    (hd : dec b' = dec (.struct p len v fs cached next seen) ++ [lv]) (hsm : ViewSmall b') :
     structOf sfs.toList collect = .ok lv := by
-  obtain ⟨s1, s2, adds2, adds3, hn0, hf1, hp, hm1, hm2, hl3, hrel, hrow⟩ := record_rows hwf hsafe hpf h
+  obtain ⟨s1, s2, adds2, adds3, hn0, hf1, hp, hm1, hm2, hl3, hrel, hrow, hsm2⟩ := record_rows hwf hsafe hpf h
   have := row_unique hd hrow
   subst this
   have hshape2 : ShapeL s2.fields sfs := by
@@ -258,7 +263,7 @@ theorem struct_interp {p len v fs cached next seen} {pf : SS → R SS} {b' : B} 
     exact ShapeL.of_takeRest this hshape
   refine structOf_ok collect sfs.toList fs.names adds3 (ShapeL.names fs sfs hshape) (by rw [hl3, hshape.length]) ?_
   intro j f hj
-  obtain ⟨found, hc, ha2⟩ := hcol s1 s2 adds2 hn0 hf1 hm1 hm2 hp j f hj
+  obtain ⟨found, hc, ha2⟩ := hcol s1 s2 adds2 hn0 hf1 hm1 hm2 hp (hsm2 hsm) j f hj
   refine ⟨found, hc, ?_⟩
   have hjlt : j < s2.seen.length := by
     have := hm2.adds_length
